@@ -13,12 +13,15 @@ import (
 	"fmt"
 	"math"
 	"os"
+	"runtime"
 	"strconv"
+	"sync"
 	"testing"
 	"time"
 )
 
 type replayFile struct {
+	Threads bool                              `json:"threads"`
 	Harness string                            `json:"harness"`
 	Label   string                            `json:"label"`
 	Kind    string                            `json:"kind"`
@@ -143,7 +146,33 @@ func Unreachable(label string)     { panic(assertFailed{label}) }
 func Reach(label string)           {}
 func Symbolic() bool               { return false }
 func PermuteMaps(on bool)          {}
-func Yield()                       {}
+
+// Yield marks a point where other goroutines may run; natively it widens race windows.
+func Yield() { time.Sleep(time.Duration(200+yieldJitter()) * time.Microsecond) }
+
+// Jitter is inserted (by overlay, for native confirmation of schedule-dependent counterexamples only)
+// before mutex operations of the package under test: it widens race windows at random.
+func Jitter() {
+	j := yieldJitter()
+	switch {
+	case j%8 == 0:
+		time.Sleep(time.Duration(50+j) * time.Microsecond)
+	case j%2 == 0:
+		runtime.Gosched()
+	}
+}
+
+var yieldSeq uint64
+
+var yieldMu sync.Mutex
+
+func yieldJitter() int {
+	yieldMu.Lock()
+	defer yieldMu.Unlock()
+	yieldSeq = yieldSeq*6364136223846793005 + 1442695040888963407
+	return int(yieldSeq>>33) % 800
+}
+
 func FireTimer() bool              { return false }
 func ArmedTimers() int             { return 0 }
 func And(a, b bool) bool           { return a && b }
@@ -202,17 +231,32 @@ func RunReplay(t *testing.T, harnesses map[string]func()) {
 		t.Skipf("no harness %q here", r.Harness)
 		return
 	}
+	runs := 1
+	if r.Threads {
+		runs = 300 // schedule-dependent counterexample: retry until the interleaving shows up
+	}
+	for i := 0; i < runs; i++ {
+		res := runOnce(h)
+		if res != "ok" || i == runs-1 {
+			fmt.Println("VERIF-REPLAY-RESULT: " + res)
+			return
+		}
+	}
+}
+
+func runOnce(h func()) (res string) {
 	defer func() {
 		switch p := recover().(type) {
 		case nil:
-			fmt.Println("VERIF-REPLAY-RESULT: ok")
+			res = "ok"
 		case assertFailed:
-			fmt.Printf("VERIF-REPLAY-RESULT: assert-failed label=%s\n", p.label)
+			res = "assert-failed label=" + p.label
 		case assumeFailed:
-			fmt.Println("VERIF-REPLAY-RESULT: assume-failed (model does not satisfy the harness assumptions natively)")
+			res = "assume-failed (model does not satisfy the harness assumptions natively)"
 		default:
-			fmt.Printf("VERIF-REPLAY-RESULT: panic %v\n", p)
+			res = fmt.Sprintf("panic %v", p)
 		}
 	}()
 	h()
+	return "ok"
 }
